@@ -1327,7 +1327,7 @@ func cmdC03(seed int64, tier, outDir string) {
 
 	tables, exprs, muts, progs, fgTables := 30, 5, 10, 120, 10
 	if tier == "thorough" {
-		tables, exprs, muts, progs, fgTables = 1500, 12, 40, 6000, 600
+		tables, exprs, muts, progs, fgTables = 500, 12, 40, 2500, 200
 	}
 	tables *= optBoost
 	progs *= optBoost
